@@ -28,11 +28,16 @@ use std::cell::Cell;
 pub const PLAIN: u8 = 0;
 pub const POISON: u8 = 1;
 pub const MOVE: u8 = 2;
+/// freed blocks go to a per-thread last-in-first-out cache and are handed out again to the next
+/// request of the same size: addresses are recycled, by a rule that depends on the sequence of
+/// requests only (not on what the system allocator happens to do)
+pub const RECYCLE: u8 = 3;
 
 pub fn mode_name(m: u8) -> &'static str {
     match m {
         PLAIN => "plain",
         POISON => "poison",
+        RECYCLE => "recycle",
         _ => "move",
     }
 }
@@ -41,6 +46,7 @@ pub fn mode_from_name(s: &str) -> u8 {
     match s {
         "poison" => POISON,
         "move" => MOVE,
+        "recycle" => RECYCLE,
         _ => PLAIN,
     }
 }
@@ -62,6 +68,88 @@ thread_local! {
     static PARK_LEN: Cell<usize> = const { Cell::new(0) };
     static PARK_CAP: Cell<usize> = const { Cell::new(0) };
     static JUNK: Cell<u64> = const { Cell::new(0) };
+    static AMBIENT: Cell<u8> = const { Cell::new(PLAIN) };
+    static CACHE_PTR: Cell<*mut Parked> = const { Cell::new(std::ptr::null_mut()) };
+    static CACHE_LEN: Cell<usize> = const { Cell::new(0) };
+    static CACHE_CAP: Cell<usize> = const { Cell::new(0) };
+    static RECYCLED: Cell<u64> = const { Cell::new(0) };
+}
+
+/// the mode `reset_mode` goes back to (a session in recycle mode keeps it between its lines)
+pub fn set_ambient(m: u8) {
+    AMBIENT.with(|c| c.set(m));
+    set_mode(m);
+}
+
+pub fn reset_mode() {
+    let m = AMBIENT.try_with(|c| c.get()).unwrap_or(PLAIN);
+    set_mode(m);
+}
+
+pub fn recycled() -> u64 {
+    RECYCLED.with(|c| c.get())
+}
+
+/// Puts a freed system block into the recycle cache; false if the cache cannot take it.
+unsafe fn cache_put(base: *mut u8, sl: Layout) -> bool {
+    CACHE_PTR
+        .try_with(|pp| {
+            let len = CACHE_LEN.with(|c| c.get());
+            let cap = CACHE_CAP.with(|c| c.get());
+            let mut b = pp.get();
+            if len == cap {
+                let new_cap = if cap == 0 { 1024 } else { cap * 2 };
+                let new_layout = Layout::array::<Parked>(new_cap).unwrap();
+                let nb = if b.is_null() { System.alloc(new_layout) } else { System.realloc(b as *mut u8, Layout::array::<Parked>(cap).unwrap(), new_layout.size()) } as *mut Parked;
+                if nb.is_null() {
+                    return false;
+                }
+                b = nb;
+                pp.set(b);
+                CACHE_CAP.with(|c| c.set(new_cap));
+            }
+            b.add(len).write(Parked { ptr: base, size: sl.size(), align: sl.align() });
+            CACHE_LEN.with(|c| c.set(len + 1));
+            true
+        })
+        .unwrap_or(false)
+}
+
+/// Takes the most recently freed cached block of exactly this layout, if any.
+unsafe fn cache_take(sl: Layout) -> *mut u8 {
+    CACHE_PTR
+        .try_with(|pp| {
+            let b = pp.get();
+            let len = CACHE_LEN.with(|c| c.get());
+            let mut i = len;
+            // (only the newest 64 entries are searched: bounded cost, still deterministic)
+            while i > 0 && len - i < 64 {
+                i -= 1;
+                let p = *b.add(i);
+                if p.size == sl.size() && p.align == sl.align() {
+                    // remove entry i, keeping the order of the rest
+                    std::ptr::copy(b.add(i + 1), b.add(i), len - i - 1);
+                    CACHE_LEN.with(|c| c.set(len - 1));
+                    let _ = RECYCLED.try_with(|c| c.set(c.get() + 1));
+                    return p.ptr;
+                }
+            }
+            std::ptr::null_mut()
+        })
+        .unwrap_or(std::ptr::null_mut())
+}
+
+/// Hands every cached block of this thread back to the system allocator.
+pub fn flush_cache() {
+    let base = CACHE_PTR.with(|c| c.get());
+    let len = CACHE_LEN.with(|c| c.get());
+    for i in 0..len {
+        unsafe {
+            let p = *base.add(i);
+            System.dealloc(p.ptr, Layout::from_size_align_unchecked(p.size, p.align));
+        }
+    }
+    CACHE_LEN.with(|c| c.set(0));
 }
 
 /// the junk byte for the next fresh block of this thread
@@ -184,7 +272,10 @@ pub fn flush_parked() {
 unsafe impl GlobalAlloc for SimAlloc {
     unsafe fn alloc(&self, layout: Layout) -> *mut u8 {
         let (sl, off) = sys_layout(layout);
-        let base = System.alloc(sl);
+        let mut base = if mode() == RECYCLE { cache_take(sl) } else { std::ptr::null_mut() };
+        if base.is_null() {
+            base = System.alloc(sl);
+        }
         if base.is_null() {
             return base;
         }
@@ -198,10 +289,14 @@ unsafe impl GlobalAlloc for SimAlloc {
         count(-1, -(layout.size() as i64));
         let (sl, off) = sys_layout(layout);
         let base = ptr.sub(off);
-        if mode() == PLAIN {
-            System.dealloc(base, sl)
-        } else {
-            park(base, sl)
+        match mode() {
+            PLAIN => System.dealloc(base, sl),
+            RECYCLE => {
+                if !cache_put(base, sl) {
+                    System.dealloc(base, sl)
+                }
+            }
+            _ => park(base, sl),
         }
     }
 
